@@ -35,6 +35,9 @@ pub enum Dec {
     FixedLeHex,
     IntBeHex,
     BoxedBeHex,
+    /// not a byte record: `BoxedUint::from_words` fed by a simulator-owned word source (an `Iterator<Item = Word>` whose
+    /// `size_hint` is exact, loose or absent — all legal), read back through `to_words` / `as_words`
+    BoxedFromWords,
 }
 
 impl Dec {
@@ -57,6 +60,7 @@ impl Dec {
             Dec::FixedLeHex => "Uint::from_le_hex",
             Dec::IntBeHex => "Int::from_be_hex",
             Dec::BoxedBeHex => "BoxedUint::from_be_hex",
+            Dec::BoxedFromWords => "BoxedUint::from_words",
         }
     }
 }
@@ -73,6 +77,9 @@ pub struct SlicePlan {
     /// the value, little-endian words, below 2^precision
     pub words: Vec<u64>,
     pub upper: bool,
+    /// `BoxedFromWords` only: what the word source answers to `size_hint` (see `SimWordSource`)
+    #[serde(default)]
+    pub hint: u8,
     pub faults: Vec<Fault>,
     /// enumerate every record length 0 ..= stated size + 9 (torn and over-long records) instead of `faults`
     #[serde(default)]
@@ -168,6 +175,7 @@ fn decode(p: &SlicePlan, rec: &[u8]) -> Option<Guarded<Got>> {
         ""
     };
     Some(match p.dec {
+        Dec::BoxedFromWords => return None,
         Dec::BoxedBe => guard(|| match BoxedUint::from_be_slice(rec, p.read_precision) {
             Ok(x) => Got::Value(boxed_words(&x), x.bits_precision()),
             Err(e) => Got::Err(e),
@@ -346,7 +354,74 @@ fn write_record(p: &SlicePlan, out: &mut RunOut) -> Option<Vec<u8>> {
     }
 }
 
+/// A word source owned by the simulator. Every `size_hint` it gives is within the `Iterator` contract
+/// (lower <= remaining <= upper); only policy 0 is exact.
+pub struct SimWordSource {
+    words: Vec<u64>,
+    at: usize,
+    policy: u8,
+    pub hints_asked: u32,
+}
+
+impl Iterator for SimWordSource {
+    type Item = u64;
+    fn next(&mut self) -> Option<u64> {
+        let w = self.words.get(self.at).copied();
+        if w.is_some() {
+            self.at += 1;
+        }
+        w
+    }
+    fn size_hint(&self) -> (usize, Option<usize>) {
+        let rem = self.words.len() - self.at;
+        match self.policy % 6 {
+            0 => (rem, Some(rem)),
+            1 => (0, None),
+            2 => (rem / 2, None),
+            3 => (0, Some(rem)),
+            4 => (rem.saturating_sub(1), Some(rem + 3)),
+            _ => (rem.min(1), Some(usize::MAX)),
+        }
+    }
+}
+
+fn exec_from_words(p: &SlicePlan, out: &mut RunOut) {
+    let words = p.words.clone();
+    let policy = p.hint;
+    let g = guard(move || {
+        let x = BoxedUint::from_words(SimWordSource { words, at: 0, policy, hints_asked: 0 });
+        (x.to_words().to_vec(), x.as_words().to_vec(), x.bits_precision())
+    });
+    out.ev(&format!("from_words/{}/{}", p.words.len(), p.hint % 6));
+    out.state(format!("slices|BoxedUint::from_words|limbs{}|hint{}", p.words.len().min(9), p.hint % 6));
+    match g {
+        Guarded::Done((tw, aw, prec)) => {
+            out.digest.words(&tw);
+            if tw != p.words || aw != p.words || prec != 64 * p.words.len() as u32 {
+                out.viol(
+                    "C16/words-roundtrip",
+                    format!("BoxedUint::from_words:hint{}", p.hint % 6),
+                    format!("from_words of {} words {} through a source with size_hint policy {} reads back as {} ({} bits of precision)", p.words.len(), hexw(&p.words), p.hint % 6, hexw(&tw), prec),
+                    plan_json(p, None),
+                );
+            }
+            out.count("probe:word-source-checked");
+            if p.hint % 6 != 0 {
+                out.count("fault:word-source-inexact-size-hint");
+            }
+        }
+        Guarded::Panic(pi) => {
+            out.viol("C11/unexpected-panic", format!("slices:BoxedUint::from_words:{}", pi.location), format!("from_words unwound at {} ({})", pi.location, pi.message), plan_json(p, None));
+        }
+        Guarded::Budget => {}
+    }
+}
+
 fn exec(p: &SlicePlan, out: &mut RunOut) {
+    if p.dec == Dec::BoxedFromWords {
+        exec_from_words(p, out);
+        return;
+    }
     if let Some(rec) = &p.record {
         judge(p, rec, "replayed-record", out);
         return;
@@ -467,6 +542,11 @@ impl TypedScenario for SliceSc {
     }
     fn generate(&self, seed: u64, tier: Tier, i: u64) -> SlicePlan {
         let mut r = Xoshiro::new(mix(seed, 0x1651, i));
+        if r.chance(1, 16) {
+            let n = r.range(0, 9) as usize;
+            let words = if n == 0 { vec![] } else { crate::c16::gen_words(&mut r, n) };
+            return SlicePlan { dec: Dec::BoxedFromWords, limbs: n, precision: 64 * n as u32, read_precision: 64 * n as u32, words, upper: false, hint: r.below(6) as u8, faults: vec![], sweep: false, record: None };
+        }
         let dec = *r.pick(&[Dec::BoxedBe, Dec::BoxedBe, Dec::BoxedLe, Dec::BoxedLe, Dec::FixedBe, Dec::FixedLe, Dec::FixedBeHex, Dec::FixedLeHex, Dec::IntBeHex, Dec::BoxedBeHex]);
         let (limbs, precision) = if dec.is_boxed_slice() {
             let p = gen_precision(&mut r, tier);
@@ -496,7 +576,7 @@ impl TypedScenario for SliceSc {
                 faults = vec![Fault::SetAt(at, 0xc3), Fault::SetAt(at + 1, 0xa9)];
             }
         }
-        SlicePlan { dec, limbs, precision, read_precision, words, upper: r.chance(1, 2), faults, sweep, record: None }
+        SlicePlan { dec, limbs, precision, read_precision, words, upper: r.chance(1, 2), hint: 0, faults, sweep, record: None }
     }
     fn exec(&self, plan: &SlicePlan, out: &mut RunOut) {
         exec(plan, out);
